@@ -456,4 +456,88 @@ def rule_index_kind(P):
     return R
 
 
-RULES = [rule_next_level, rule_terminal_type, rule_index_kind]
+def rule_fold_zeros(P):
+    """scalar folds over a diagram (cardinality, largest / smallest value): a node unpacked SPARSE_ONLY shows only its non-zero children, so
+    the implicit zero children are left out of the fold.  That is sound only when a zero child contributes the accumulator's neutral
+    element: the fold's own terminal case gives the literal 0 for handle 0, and the accumulate step is a plain sum (no comparison in it)."""
+    R = RuleResult("fold.covers-zeros", "a recursive scalar fold (result in an oper_item) that unpacks nodes SPARSE_ONLY gives handle 0 the literal 0 and accumulates by a branch-free sum; any other fold (minimum, maximum) unpacks FULL so that the zero children are folded in")
+    n = 0
+    for f in sorted(P.fns.values(), key=lambda f: (f["file"], f["line"], f["inst"])):
+        if not f.get("cfg") or not f["file"].startswith("operations/"):
+            continue
+        res = [p_["name"] for p_ in f.get("params", []) if "oper_item" in (p_.get("rec") or "")]
+        if not res:
+            continue
+        g = Graph(f)
+        selfcalls = [k for k in g.nodes if k.kind == "call" and k.ev["q"] == f["q"] and any("down(" in a for a in k.ev.get("args", []))]
+        unp = [k for k in g.nodes if k.kind == "ldef" and (k.ev.get("callq") or "").endswith("unpacked_node::newFromNode")]
+        if not selfcalls or not unp:
+            continue
+        n += 1
+        R.functions.add(f["inst"])
+        R.paths += 1
+        flag = _nz(unp[0].ev["rhs"]).rstrip(")").split(",")[-1]
+        iid = "%s: children unpacked %s" % (f["inst"].replace(M, "")[:80], flag)
+        if flag == "FULL_ONLY":
+            R.ok(iid + " (every child is folded in)", where(f, unp[0].line))
+            continue
+        # (b) handle 0 yields the literal 0
+        node_params = [p_["name"] for p_ in f.get("params", []) if p_.get("handle")]
+        zero_guard = None
+        for b in g.nodes:
+            if b.kind == "branch" and b.cond and len(b.succ) == 2 and re.fullmatch(r"0==(\w+)|(\w+)==0|!(\w+)", _nz(b.cond["text"])):
+                v = [x for x in re.fullmatch(r"0==(\w+)|(\w+)==0|!(\w+)", _nz(b.cond["text"])).groups() if x][0]
+                if v not in node_params:
+                    continue
+                ti = 1 if b.cond.get("neg") else 0
+                arm = [s_ for s_, i in b.succ if i == ti]
+                seen_set = False
+                k = g.nodes[arm[0]] if arm else None
+                steps = 0
+                while k is not None and steps < 6:
+                    if k.kind == "call" and k.ev.get("args") and len(k.ev["args"]) == 2 and _nz(k.ev["args"][0]) in res and _nz(k.ev["args"][1]) in ("0", "0L", "0.0"):
+                        seen_set = True
+                    if k.kind == "ret":
+                        break
+                    k = g.nodes[k.succ[0][0]] if len(k.succ) == 1 else None
+                    steps += 1
+                if seen_set and k is not None and k.kind == "ret":
+                    zero_guard = b
+        # (c) the accumulate step: calls that take the result and the temporary; their bodies are branch-free
+        temps = {k.ev["args"][-1].strip() for k in selfcalls if _nz(k.ev["args"][-1]) not in res}
+        acc = [k for k in g.nodes if k.kind == "call" and len(k.ev.get("args", [])) == 2 and _nz(k.ev["args"][0]) in res and _nz(k.ev["args"][1]) in {_nz(t) for t in temps}]
+        branchy = []
+        def has_branch(q, depth=0):
+            for cf in P.by_q.get(q, []):
+                if not cf.get("cfg"):
+                    continue
+                if any(b_.get("cond") and len([x for x in b_["succ"] if x is not None]) >= 2 for b_ in cf["cfg"]["blocks"]):
+                    return True
+                if depth < 2:
+                    for b_ in cf["cfg"]["blocks"]:
+                        for e in b_["ev"]:
+                            if e["k"] == "call" and e["q"] != q and has_branch(e["q"], depth + 1):
+                                return True
+            return False
+        for k in acc:
+            if has_branch(k.ev["q"]):
+                branchy.append(k.ev["q"].replace(M, ""))
+        if zero_guard is not None and acc and not branchy:
+            R.ok(iid + ": handle 0 gives 0 and %s is a plain sum" % ", ".join(sorted({k.ev["q"].replace(M, "") for k in acc})), where(f, unp[0].line))
+        else:
+            why = []
+            if zero_guard is None:
+                why.append("handle 0 is not given the literal 0 by a terminal case of its own")
+            if branchy:
+                why.append("the accumulate step %s compares (0 is not its neutral element)" % ", ".join(sorted(set(branchy))))
+            if not acc:
+                why.append("no accumulate step taking the result and the temporary was recognised")
+            R.fail(iid, where(f, unp[0].line), Finding(R.rule, f["file"], base_name(f["q"]), "unpack@%s" % flag,
+                   "the fold visits only the non-zero children (%s) but %s: the zero entries of a node never reach the result" % (flag, "; ".join(why)), unp[0].line, inst=f["inst"]))
+    if n < 7:
+        raise AnalysisBroken("fold.covers-zeros: expected the 7 scalar folds (3 cardinalities, 4 range scans), found %d" % n)
+    R.require_floor(7, "scalar folds")
+    return R
+
+
+RULES = [rule_next_level, rule_terminal_type, rule_index_kind, rule_fold_zeros]
